@@ -43,6 +43,7 @@ type fsWorld struct {
 	views   []avfs.VFS
 	handles []avfs.File
 	hview   []int
+	hdir    []bool // handle opened on a directory (generator bias only)
 }
 
 func newFSWorld(fsname, osname string, umask int) *fsWorld {
@@ -178,6 +179,11 @@ func (w *fsWorld) apply(t []string) string {
 		}
 		w.handles = append(w.handles, f)
 		w.hview = append(w.hview, vi)
+		isDir := false
+		if info, err := f.Stat(); err == nil {
+			isDir = info.IsDir()
+		}
+		w.hdir = append(w.hdir, isDir)
 		return fmt.Sprintf("H %d", len(w.handles)-1)
 	case "RM":
 		return resErr(v.Remove(untok(t[2])))
@@ -529,7 +535,9 @@ func showSnapSafe(mode string, w *fsWorld, r string) string {
 }
 
 // ---- generator -----------------------------------------------------------------
-var fsNames = []string{"a", "b", "c"}
+// "ab" has "a" as a strict prefix: sibling names in a prefix relation exercise the string-prefix decisions of the
+// walk (PathIterator.ReplacePart restart, rename-into-itself)
+var fsNames = []string{"a", "b", "ab"}
 var fsPerms = []uint32{0, 0o600, 0o644, 0o755, 0o777, 0o700, 0o750, 0o555, uint32(fs.ModeSticky) | 0o777, uint32(fs.ModeSetgid) | 0o755}
 var fsData = []string{"", "x", "hello", "0123456789012345678901234567890123456789"}
 var fsUsers = [][3]int{{0, 0, 1}, {1000, 1000, 0}, {1001, 1000, 0}, {1002, 1002, 0}}
@@ -700,7 +708,22 @@ func (g *fsGen) op() string {
 		return fmt.Sprintf("SL %s %s %s", vs, tok(g.target()), tok(g.path()))
 	}
 	if !g.single && len(g.w.handles) > 0 && r.chance(2, 5) {
-		h := strconv.Itoa(r.intn(len(g.w.handles)))
+		hi := r.intn(len(g.w.handles))
+		h := strconv.Itoa(hi)
+		if hi < len(g.w.hdir) && g.w.hdir[hi] && r.chance(3, 4) {
+			// a directory handle: exercise the batched listing (the two methods share one cursor), interleaved with
+			// changes of the directory made by the other calls
+			switch r.intn(8) {
+			case 0, 1, 2:
+				return fmt.Sprintf("fRD %s %d", h, r.pick2([]int{1, 1, 2, 3, -1, 0, 100}))
+			case 3, 4, 5:
+				return fmt.Sprintf("fRN %s %d", h, r.pick2([]int{1, 1, 2, 3, -1, 0, 100}))
+			case 6:
+				return "fST " + h
+			default:
+				return fmt.Sprintf("fSK %s %d %d", h, g.off(), r.pick2([]int{0, 1, 2}))
+			}
+		}
 		switch k := r.intn(30); {
 		case k < 4:
 			return fmt.Sprintf("fR %s %d", h, r.pick2([]int{0, 1, 2, 3, 5, 64}))
